@@ -584,6 +584,11 @@ class Check:
         cases, gen = self.gen_cases(tier)
         t = time.time()
         impl, model, verdicts = self.run_both(cases)
+        rf = getattr(gen, 'refine', None)
+        if rf:
+            # optional generator hook: aggregate cases (checksummed ranges) that failed are re-run as
+            # the individual cases they stand for; returns the four lists to decide on
+            cases, impl, model, verdicts = rf(cases, impl, model, verdicts, self.run_both)
         self.cov['run_s'] = round(time.time() - t, 1)
         known = load_known(self.pid)
         dist = {}
